@@ -8,8 +8,11 @@ pub fn graph() -> &'static PackageGraph {
     static G: OnceLock<PackageGraph> = OnceLock::new();
     G.get_or_init(|| {
         let repo = std::env::var("VERIF_REPO").unwrap_or_else(|_| "/repo".to_owned());
-        let json = std::fs::read_to_string(format!("{repo}/fixtures/tests-workspace-metadata.json"))
-            .expect("fixture metadata");
+        // VERIF_GRAPH_JSON: an alternative cargo-metadata document (e.g. the fixture with one package
+        // turned into a non-member path dependency)
+        let path = std::env::var("VERIF_GRAPH_JSON")
+            .unwrap_or_else(|_| format!("{repo}/fixtures/tests-workspace-metadata.json"));
+        let json = std::fs::read_to_string(path).expect("fixture metadata");
         PackageGraph::from_json(json).expect("package graph")
     })
 }
